@@ -12,7 +12,7 @@ import (
 )
 
 func init() {
-	props["C13"] = &propDef{extraPkgs: []string{jsonPatchPkg}, run: runC13, explanation: "Partial ('only if' direction). Decided statically on the patch validators: (K1) the numeric limits and the id pattern — len(id) > 50 rejects, len(service type) > 30 rejects, purposes longer than the 5-entry purpose table reject, ids must match the regexp literal ^[A-Za-z0-9_-]+$ compiled once; (T1) the key-type × purpose matrix extracted from the four package-level literals equals the documented matrix and the purpose table holds the five document.KeyPurpose* constants; (T2) the member-name sets of a key (required, optional, one-of) and of a replace document; (U1) every for-all loop in the validator packages rejects only inside its body (an accepting return inside such a loop validates only a prefix); (G1) per action, success lies behind each documented check for every element (for-all form through helper boundaries): array presence, id rules, duplicate ids, member rule, purposes rule, type/purpose rule, JWK rule, service id/type/endpoint rules with URI validity for a string endpoint and for every string entry of a list endpoint, also-known-as URI parse and uniqueness, replace member set, original-document id/context refusal. Not decided: the 'if' direction; what net/url accepts; JWK well-formedness beyond the presence checks. (U2) every seen-set is searched with the key expression it is filled with. Presence of a key member is tested by comma-ok lookups only; in JWK.Validate each member is demanded only of the key type it belongs to. ParsePublicKeys / ParseServices leave their entry loop only at its end. Closed set of refusals of JWK.Validate (exact: member M is empty); accessor hands back the patch's own list; validators test the payload as the document package decodes it. Replace: the document's size is no reason to refuse; JSON patch: 'path' and 'from' are judged one at a time. The JSON-patch validator reads only path / from / op of an operation. The JSON-patch validator decodes the patch's own list."}
+	props["C13"] = &propDef{extraPkgs: []string{jsonPatchPkg}, run: runC13, explanation: "Partial ('only if' direction). Decided statically on the patch validators: (K1) the numeric limits and the id pattern — len(id) > 50 rejects, len(service type) > 30 rejects, purposes longer than the 5-entry purpose table reject, ids must match the regexp literal ^[A-Za-z0-9_-]+$ compiled once; (T1) the key-type × purpose matrix extracted from the four package-level literals equals the documented matrix and the purpose table holds the five document.KeyPurpose* constants; (T2) the member-name sets of a key (required, optional, one-of) and of a replace document; (U1) every for-all loop in the validator packages rejects only inside its body (an accepting return inside such a loop validates only a prefix); (G1) per action, success lies behind each documented check for every element (for-all form through helper boundaries): array presence, id rules, duplicate ids, member rule, purposes rule, type/purpose rule, JWK rule, service id/type/endpoint rules with URI validity for a string endpoint and for every string entry of a list endpoint, also-known-as URI parse and uniqueness, replace member set, original-document id/context refusal. Not decided: the 'if' direction; what net/url accepts; JWK well-formedness beyond the presence checks. (U2) every seen-set is searched with the key expression it is filled with. Presence of a key member is tested by comma-ok lookups only; in JWK.Validate each member is demanded only of the key type it belongs to. ParsePublicKeys / ParseServices leave their entry loop only at its end. Closed set of refusals of JWK.Validate (exact: member M is empty); accessor hands back the patch's own list; validators test the payload as the document package decodes it. Replace: the document's size is no reason to refuse; JSON patch: 'path' and 'from' are judged one at a time. The JSON-patch validator reads only path / from / op of an operation. The JSON-patch validator decodes the patch's own list. A validation loop is not left from inside its body; validateJWK refuses only a missing JWK and what (document.JWK).Validate refuses; the decoded operation list is not rewritten."}
 }
 
 func constStringsOfAlloc(c *Ctx, a *ssa.Alloc) []string {
@@ -965,6 +965,22 @@ func (c *Ctx) validatorNoForeignRefusalsRule(rule string) {
 		c.Unresolved(rule, "ReplaceValidator.Validate / JSONValidator.Validate")
 		return
 	}
+	// a key's JWK is judged by (document.JWK).Validate alone (key material present for its type): the patch validator
+	// adds no demand of its own on the JWK's members — a list of admitted member names turns away keys exported with
+	// key_ops / x5c / ext, and the library's own keys with a nonce
+	if vj := c.Fn(pPV, "validateJWK"); vj != nil {
+		var extra []string
+		rs := c.rejectionReasons(vj, nil, false, 3)
+		for _, r := range rs {
+			if strings.HasPrefix(r, "($0 == nil)=true") || strings.HasPrefix(r, "($0 != nil)=false") || strings.HasPrefix(r, "(len($0) == 0)=true") || strings.HasPrefix(r, "((document.JWK).Validate($0) != nil)=true") {
+				continue
+			}
+			extra = append(extra, r)
+		}
+		c.Check(rule, "validateJWK:closed-set-of-refusals", len(rs) >= 1 && len(extra) == 0, vj.Pos(), fmt.Sprintf("validateJWK refuses only a missing JWK and what (document.JWK).Validate refuses; other reasons: %v", extra))
+	} else {
+		c.Unresolved(rule, "patchvalidator.validateJWK")
+	}
 	var bad []string
 	reasons := c.rejectionReasons(rv, nil, false, 0)
 	for _, r := range reasons {
@@ -1051,6 +1067,53 @@ func (c *Ctx) validatorNoForeignRefusalsRule(rule string) {
 			})
 		}
 		c.Check(rule, "json-patch:every-operation-inspected", nM >= 1 && okList, jv.Pos(), fmt.Sprintf("the JSON-patch validator decodes json.Marshal of the patch's own list (%s)", what))
+		// … and the decoded list stays as decoded while it is walked: no function of the validator stores into a list of
+		// operations or appends onto a slice of one (the in-place filter `ops[:0]` overwrites the operations that the
+		// walk has yet to see)
+		var writes []string
+		nOps := 0
+		isOps := func(t types.Type) bool {
+			ts := types.TypeString(t, nil)
+			return strings.HasSuffix(ts, "json-patch.Patch") || strings.HasSuffix(ts, "[]github.com/evanphx/json-patch.Operation") || strings.HasSuffix(ts, "json-patch.Operation")
+		}
+		for _, g := range c.reachableModuleFuncs([]*ssa.Function{jv}) {
+			if pkgPathOf(g) != modPkg+pPV {
+				continue
+			}
+			forEachInstr(g, func(in ssa.Instruction) {
+				switch x := in.(type) {
+				case *ssa.Range, *ssa.Index, *ssa.IndexAddr:
+					var xs ssa.Value
+					switch y := x.(type) {
+					case *ssa.Index:
+						xs = y.X
+					case *ssa.IndexAddr:
+						xs = y.X
+					}
+					if xs != nil && isOps(xs.Type()) {
+						nOps++
+					}
+				case *ssa.Store:
+					if ia, isIA := x.Addr.(*ssa.IndexAddr); isIA && isOps(ia.X.Type()) {
+						writes = append(writes, c.pos(x.Pos())+": "+short(g.String())+" stores into a list of operations")
+					}
+				case *ssa.Call:
+					if bi, isB := x.Call.Value.(*ssa.Builtin); isB && bi.Name() == "append" && len(x.Call.Args) > 0 && isOps(x.Call.Args[0].Type()) {
+						if sl, isSl := x.Call.Args[0].(*ssa.Slice); isSl {
+							writes = append(writes, c.pos(x.Pos())+": "+short(g.String())+" appends onto "+c.Path(sl, nil))
+						} else if ph, isPhi := x.Call.Args[0].(*ssa.Phi); isPhi {
+							for _, e := range ph.Edges {
+								if sl, isSl := e.(*ssa.Slice); isSl {
+									writes = append(writes, c.pos(x.Pos())+": "+short(g.String())+" appends onto "+c.Path(sl, nil))
+								}
+							}
+						}
+					}
+				}
+			})
+		}
+		sort.Strings(writes)
+		c.Check(rule, "json-patch:every-operation-inspected:list-not-rewritten", nOps >= 1 && len(writes) == 0, jv.Pos(), fmt.Sprintf("%d read(s) of the decoded operation list in the validator, no write into it", nOps), uniqStrs(writes)...)
 	}
 	c.Check(rule, "json-patch:pointers-judged-one-at-a-time", n >= 2 && len(pairs) == 0, jv.Pos(), fmt.Sprintf("%d functions of the JSON-patch validator; none branches on a condition over both \"path\" and \"from\"", n), pairs...)
 }
